@@ -287,6 +287,19 @@ func (w *walker) enums() {
 				}
 			}
 		}
+		if hasTyped {
+			// an empty or blank name is a name outside the enumeration too (Go text form)
+			for _, n := range []string{"", " ", "\t  "} {
+				var uv uint32
+				var uerr error
+				if p, pv, stk := core.Guard(func() { uv, uerr = et.UnmarshalText(n) }); p {
+					w.c.Violation(core.PanicSig(pv, stk), fmt.Sprintf("UnmarshalText(%q) for %s panicked: %v", n, e.Name, pv), map[string]any{"stack": stk})
+					return
+				}
+				w.check(uerr != nil, "C17:enum-unknown-name:"+e.Name+":blank:text", fmt.Sprintf("UnmarshalText(%q) for %s is accepted as %X", n, e.Name, uv), nil)
+				w.c.Count("blank_names", 1)
+			}
+		}
 		for _, n := range []string{"Bogus", other, strings.ToLower(firstKey(e.Values)) + "_"} {
 			_, err := ttlv.EnumByName(e.Tag, n)
 			w.check(err != nil, "C17:enum-unknown-name:"+e.Name+":"+n, fmt.Sprintf("EnumByName(%s,%q) succeeded for a name outside the enumeration", e.Name, n), nil)
